@@ -49,7 +49,10 @@ def check_ob_batch(ctx, runner, hists, stats, fail_sink):
     for h in hists:
         n = len(h[2]) + 1
         real = hb.run_real_ob(h)
-        d = hb.compare_ob(h, real, ans[i:i + n])
+        dall = hb.compare_ob_all(h, real, ans[i:i + n])
+        d = hb.compare_ob(h, real, ans[i:i + n]) if dall else None
+        if "model" in dall:
+            stats["model_disagreements"] += 1
         i += n
         nops += n - 1
         # statistics
@@ -129,7 +132,7 @@ def run(ctx):
     thorough = ctx.tier == "thorough"
     real_limit = wb.STRBUF_LIMIT
     stats = {"transitions": {}, "ops": {}, "outputs": {}, "append_size_vs_limit": {}, "histories": 0,
-             "ro_cases": 0, "ro_filekind": {}, "nontrivial": set()}
+             "ro_cases": 0, "ro_filekind": {}, "nontrivial": set(), "model_disagreements": 0}
     ob_fail = []
     ro_fail = []
     evaluations = 0
@@ -137,7 +140,7 @@ def run(ctx):
     small, big = hb.threshold_grid(real_limit)
 
     # 1. random, boundary-biased histories over the threshold grid (small limits)
-    per_pair = 400 if thorough else 30
+    per_pair = 1000 if thorough else 30
     batch = []
     for (limit, ovf) in small:
         for _ in range(per_pair):
@@ -149,7 +152,7 @@ def run(ctx):
     n_random_small = stats["histories"]
 
     # 2. the real STRBUF_LIMIT
-    per_pair = 40 if thorough else 4
+    per_pair = 100 if thorough else 4
     batch = []
     for (limit, ovf) in big:
         for _ in range(per_pair):
@@ -163,9 +166,10 @@ def run(ctx):
     # 3. exhaustive short histories over a tiny alphabet
     exh_len = 4 if thorough else 3
     n_exh = 0
-    for ovf in (0, 3, 4, 6, 1 << 20):
+    for (which, elimit, ovf, elen) in [("A", 4, o, exh_len) for o in (0, 3, 4, 6, 1 << 20)] + \
+                                      [("B", 3, o, exh_len + 1) for o in (0, 5, 8)]:
         batch = []
-        for h in hb.exhaustive_histories(4, ovf, exh_len):
+        for h in hb.exhaustive_histories(elimit, ovf, elen, which):
             batch.append(h)
             if len(batch) >= 4000:
                 evaluations += check_ob_batch(ctx, runner, batch, stats, ob_fail)
@@ -188,24 +192,30 @@ def run(ctx):
         by_which.setdefault(d[1], []).append(("ro", c, d))
 
     ctx.oblige("K-buf: extracted model agrees with the real buffers after every operation (output, len, representation, overflowed, remain, file position, file content)",
-               not by_which["model"] and not by_which["machinery"],
-               "%d disagreeing histories" % (len(by_which["model"]) + len(by_which["machinery"])))
+               not by_which["model"] and not by_which["machinery"] and not stats["model_disagreements"],
+               "%d disagreeing histories" % (len(by_which["model"]) + len(by_which["machinery"]) + stats["model_disagreements"]))
     ctx.oblige("search: real buffers behave as the FIFO queue (extracted Spec/Fifo.v and an independent Python queue) on every generated history",
                not by_which["queue"] and not by_which["spec"] and not by_which["property"],
                "%d departing histories" % (len(by_which["queue"]) + len(by_which["spec"]) + len(by_which["property"])))
 
-    # report a few, smallest first, shrunk
+    # report a few, smallest first, shrunk; one per (kind of failure, operation kind)
     reported = 0
     seen = set()
     allf = sorted(by_which["queue"] + by_which["spec"] + by_which["property"] + by_which["model"] + by_which["machinery"],
-                  key=lambda t: len(json.dumps(t[1])))
+                  key=lambda t: (len(t[1][2]) if t[0] == "ob" else len(t[1][4]), len(t[1][2 if t[0] == "ob" else 1])))
     for kind, case, d in allf:
-        if reported >= 6:
+        if reported >= 5:
             break
         if kind == "ob":
             h = case
             which = d[1]
-            budget = [150]
+            step = d[0]
+            opk = h[2][step - 1][0] if 0 < step <= len(h[2]) else "init"
+            key = "ob:%s:%s" % (which, opk)
+            if key in seen:
+                continue
+            seen.add(key)
+            budget = [120]
 
             def fails(c, which=which, budget=budget):
                 if budget[0] <= 0:
@@ -213,16 +223,11 @@ def run(ctx):
                 budget[0] -= 1
                 r = ob_fails(runner, c)
                 return r is not None and r[1] == which
-            h2 = hb.shrink_ob(h, fails)
-            d2 = ob_fails(runner, h2) or d
-            if d2[1] != which:
+            h2 = hb.shrink_ob((h[0], h[1], h[2][:step]), fails) if which != "machinery" else h
+            d2 = ob_fails(runner, h2)
+            if d2 is None or d2[1] != which:
                 h2, d2 = h, d
             step = d2[0]
-            opk = h2[2][step - 1][0] if 0 < step <= len(h2[2]) else "init"
-            key = "ob:%s:%s" % (which, opk)
-            if key in seen:
-                continue
-            seen.add(key)
             reported += 1
             what = {
                 "model": "OverflowableBuffer: real code and model disagree at operation %d (%s)" % (step, opk),
@@ -231,6 +236,7 @@ def run(ctx):
             }.get(which, "OverflowableBuffer: %s at operation %d" % (which, step))
             ctx.report(key, what,
                        {"kind": "ob", "limit": h2[0], "overflow": h2[1], "ops": h2[2], "step": step, "against": which,
+                        "copy_bytes": hb.copy_bytes_for(h2, wb.COPY_BYTES),
                         "expected": d2[2], "observed": d2[3], "failing_input_found": True})
         else:
             c = case
@@ -241,7 +247,7 @@ def run(ctx):
             seen.add(key)
             reported += 1
             ctx.report(key, "ReadOnlyFileBasedBuffer: %s at step %d: %s" % (d[1], step, d[2][:200]),
-                       {"kind": "ro", "filekind": c[0], "content_hex": c[1], "pos": c[2], "size": c[3], "ops": c[4],
+                       {"kind": "ro", "filekind": c[0], "content_hex": c[1], "pos": c[2], "size": c[3], "ops": c[4][:max(0, step - 1)],
                         "step": step, "against": d[1], "expected": d[2], "observed": d[3], "failing_input_found": True})
 
     if not props_ok and not ctx.violations:
@@ -266,7 +272,8 @@ def run(ctx):
         "histories_random_small_limits": n_random_small,
         "histories_random_real_limit": n_random_big,
         "histories_exhaustive": n_exh,
-        "exhaustive_rule": "every sequence of exactly %d operations over a 13-operation alphabet (append 1/limit-1/limit+1, get -1/2/limit+5 with and without skip, skip 1/limit-1/len with and without allow_prune, getfile), STRBUF_LIMIT=4, overflow in {0,3,4,6,2^20}" % exh_len,
+        "exhaustive_rule": "A: every sequence of exactly %d operations over a 13-operation alphabet (append 1/limit-1/limit+1, get -1/2/limit+5 with and without skip, skip 1/limit-1/len with and without allow_prune, getfile), STRBUF_LIMIT=4, overflow in {0,3,4,6,2^20}; "
+                           "B: every sequence of exactly %d operations over a 9-operation alphabet (append 2/limit, get(1,skip), get(3), skip 2/len/0, len, close), STRBUF_LIMIT=3, overflow in {0,5,8}" % (exh_len, exh_len + 1),
         "threshold_grid": {"small_limits": [list(p) for p in small], "real_limit": [list(p) for p in big]},
         "readonly_cases": stats["ro_cases"],
         "readonly_file_kinds": stats["ro_filekind"],
